@@ -535,6 +535,9 @@ def _branch_of(node, fnode):
 def run(ctx):
     rep = ctx.report
     rule_loose_signal(ctx, rep)
+    # the cursor protocol the readers' hand-back arithmetic rests on (shared with C13)
+    from . import c13
+    c13.rule_filewrapper(ctx, rep)
     rule_def_account(ctx, rep)
     rule_int_precedence(ctx, rep)
     # anchor "container readers strip their own prefix and re-tokenize the remainder": shared with C04
